@@ -1,5 +1,12 @@
 """Shared machinery of ./check: building, running harness and model, diffing, monitors, evidence."""
 import json, os, re, subprocess, sys, time, hashlib, shutil
+import builtins as _b
+def open(f, mode="r", *a, **kw):
+    """text files are read / written tolerantly: an implementation that has gone wrong may print arbitrary bytes"""
+    if "b" not in mode and "errors" not in kw:
+        kw["errors"] = "replace"
+    return _b.open(f, mode, *a, **kw)
+
 
 VERIF = os.path.dirname(os.path.dirname(os.path.abspath(__file__)))
 REPO = os.environ.get("VERIF_REPO", "/repo")
@@ -20,7 +27,7 @@ def run(cmd, cwd=None, env=None, timeout=None, check=False, stdin=None, capture=
         e.update(env)
     p = subprocess.run(cmd, cwd=cwd, env=e, timeout=timeout, input=stdin,
                        stdout=subprocess.PIPE if capture else None,
-                       stderr=subprocess.PIPE if capture else None, text=True)
+                       stderr=subprocess.PIPE if capture else None, text=True, errors="replace")
     if check and p.returncode != 0:
         raise RuntimeError(f"command failed ({p.returncode}): {cmd}\n{p.stdout}\n{p.stderr}")
     return p
@@ -162,7 +169,7 @@ def split_cases(ops_lines):
 
 def run_model(ops_path, out_path):
     with open(ops_path) as fin, open(out_path, "w") as fout:
-        p = subprocess.run([DRIVER, "model"], stdin=fin, stdout=fout, stderr=subprocess.PIPE, text=True)
+        p = subprocess.run([DRIVER, "model"], stdin=fin, stdout=fout, stderr=subprocess.PIPE, text=True, errors="replace")
     return p.returncode == 0, p.stderr
 
 def diff_streams(ops, impl, model, fields, max_report=5):
@@ -386,6 +393,7 @@ def monitor_case(ops, obs, which):
             ro_mode = mode in ("ro", "copy_ro")
             if o.get("pk") == "0" and (r.startswith("io:") or ro_mode):
                 V("C09", "open-alters-file", f"{ops[i].strip()} -> {r}: bytes that were in the file changed", i)
+                V("C05", "open-alters-file", f"{ops[i].strip()} -> {r}: the file no longer holds what the arena left there when it was closed", i)
             excl = kvs.get("create") in ("2", "3") and mode in ("mut", "copy")
             if excl and r == "ok" and fstate["last_fh"] not in (None, "none"):
                 for p_ in ("C09", "C05"):
@@ -416,10 +424,14 @@ def monitor_case(ops, obs, which):
                     b = None
                 if b is not None and "flset" in b:
                     b = None    # (expectation of a `close_last`, not judged on this degenerate arena)
-                if b is not None and fstate["badfile"] is False and int(o["al"]) <= int(o["cp"]) and int(b["al"]) <= int(b["cp"]):
+                if b is not None and fstate["badfile"] is False and not fstate.get("tampered") and int(o["al"]) <= int(o["cp"]) and int(b["al"]) <= int(b["cp"]):
                     for k in ("al", "di", "ms", "fl", "ma"):
                         if o.get(k) != b.get(k):
                             V("C05", "state-differs", f"after {ops[i].strip()}: {k}={o.get(k)} but {b.get(k)} before closing", i)
+                            if k == "di":
+                                V("C20", "reopen-changes-discarded", f"after {ops[i].strip()}: discarded() = {o.get(k)}, it was {b.get(k)} when the arena was closed", i)
+                            if k == "fl":
+                                V("C10", "reopen-changes-list", f"after {ops[i].strip()}: free list {o.get(k)}, it was {b.get(k)} when the arena was closed", i)
                             break
                     if o.get("doff") != o0.get("doff") or o.get("mv") != cfg.get("magic") or o.get("fk") != cfg.get("freelist"):
                         V("C05", "identity-differs", f"after {ops[i].strip()}: doff/mv/fk = {o.get('doff')}/{o.get('mv')}/{o.get('fk')}", i)
